@@ -9,10 +9,11 @@ Proof. constructor; unfold fail_pending, sink_told; cbn; auto; try discriminate;
 
 Ltac fin5 := solve [intuition (try discriminate; try congruence; try lia)].
 
-Lemma inv5_step s a e s' : Inv1 s -> Inv5 s -> step_stream s a e = Some s' -> Inv5 s'.
+Lemma inv5_step s a e s' : Inv1 s -> Inv2 s -> Inv3 s -> Inv5 s -> step_stream s a e = Some s' -> Inv5 s'.
 Proof.
-  intros H1 [] H.
+  intros H1 H2 H3 [] H.
   pose proof (i_start_src s H1) as Hss. pose proof (i_start_idle s H1) as Hsi. pose proof (i_cstop s H1) as Hcs. clear H1.
+  pose proof (j_mid s H2) as Hjm. pose proof (l_acc s H3) as Hla. pose proof (l_acqon s H3) as Hlq. pose proof (l_noab s H3) as Hln. clear H2 H3.
   unfold fail_pending, sink_told in *.
   step_cases s H; unfold quiet, workers_idle, sink_finish in *; cbn in *; constructor; unfold fail_pending, sink_told; cbn;
     try reflexivity; try assumption; split_goal_ifs; cbn in *; try fin5.
